@@ -16,7 +16,8 @@ RULE = ("seeded random feature trees with tags at feature, rule, scenario, outli
         "without abort/--stop so that every scenario is reached; non-trivial = at least one scenario selected and one de-selected")
 LEVEL_TEXT = ("Theorems over Runner.v with an abstract tag expression: a de-selected scenario emits no hook and no step call and ends "
               "skipped with all steps skipped; every step call and scenario hook of a run belongs to a selected scenario; a selected "
-              "scenario calls its hooks; a rule/feature none of whose scenarios is selected is skipped.  Model compared with real runs; "
+              "scenario calls its hooks; a rule / a feature (rules included) none of whose scenarios is selected is skipped and calls nothing; a rule or feature that "
+              "ends skipped contains only skipped elements (one containing a scenario that passed or failed does not).  Model compared with real runs; "
               "oracle evaluates the intended formula on effective tags computed from the abstract program.")
 LEVEL_NOTE = "Trusted: Coq kernel, renderer/decoder. The mapping raw --tags text -> formula is fixed per pool entry (C07/C08 verify the parsers)."
 
